@@ -594,6 +594,51 @@ FDIV_T2 = {
 }
 
 
+# float divisors that are not counts: key fdiv|function|ordinal -> (shape regex, reason)
+FDIV_T2F = {
+    "fdiv|duration::DurationEstimator::create|0":
+        (r"^speed$", "speed >= 1e-6: set_speed stores max(v, 1e-6) (C20-R1) and the default is 1"),
+    "fdiv|duration::DurationEstimator::estimate_duration_with_frame_length|0":
+        (r"Iterator::sum\(duration_params\)\.1$", "sum of the state duration variances of the group; ASSUMPTION (voice-format fact): duration variances of a voice are positive"),
+    "fdiv|duration::DurationEstimator::estimate_duration_with_frame_length::{closure#0}|0":
+        (r"^arg3\.1$", "a state's duration variance; same voice-format assumption"),
+    "fdiv|label::Labels::load_from_strings|0":
+        (r"^Mul\(\(fperiod as f64\), 10000000\.0\)$", "fperiod >= 1 (C20-R1), so the divisor is >= 1e7"),
+    "fdiv|mlpg_adjust::mlpg::MlpgGlobalVariance::<'a>::next_step|0":
+        (r"^Sub\(Mul\(Mul\(Neg\(1\.0\{W1\}\)", "quasi-Newton step size 1/h: h is a sum of data-dependent terms, zero only by exact cancellation - numerical, not `out of nothing` (not decided)"),
+    "fdiv|mlpg_adjust::mlpg::MlpgGlobalVariance::<'a>::next_step|1":
+        (r"^Sub\(Mul\(Mul\(Neg\(1\.0\{W1\}\)", "as above (the switched-off arm)"),
+    "fdiv|vocoder::cepstrum::MelCepstrum::postfilter_mcp|0":
+        (r"CoefficientsT::b2en\(", "e2 = sum ir^2 with ir[0] = exp(c0) > 0 (C14-R5), so e2 > 0"),
+    "fdiv|vocoder::cepstrum::MelGeneralizedCepstrum::mgc2mgc|0":
+        (r"^Sub\(1\.0, Mul\(self\.alpha, ", "1 - a*b with a, b in [0, 1] (C20-R1 clamp) and a != b (dominating guard): a*b < 1"),
+    "fdiv|vocoder::lsp::LineSpectralPairs::postfilter_lsp|0":
+        (r"^Add\(Mul\(Mul\(beta, Sub\(self\[", "d1^2 + d2^2 with d = beta * (difference of adjacent line spectral frequencies), beta > 0 (dominating guard): zero only if three adjacent frequencies coincide, i.e. outside the stable range the finiteness clause is conditioned on"),
+    "fdiv|vocoder::lsp::LineSpectralPairs::postfilter_lsp|1":
+        (r"LineSpectralPairs::lsp2en\(self\)$", "en2 = sum of squares of an impulse response whose first tap is the gain term > 0"),
+    "fdiv|vocoder::lsp::LineSpectralPairs::postfilter_lsp|2":
+        (r"LineSpectralPairs::lsp2en\(self\)$", "as above (log-gain arm)"),
+}
+
+
+def _positive_guard_f(gs, xs):
+    """a dominating guard proving the float expression xs non-zero: x != 0.0, x > 0.0, not (x <= 0.0), not (x == 0.0)"""
+    for g in gs:
+        if g[0] not in ("true", "false"):
+            continue
+        pos, c = paths.bool_atoms(g)
+        if c[0] != "bin" or show(c[2]) != xs or c[3][0] != "c":
+            continue
+        try:
+            v = float(c[3][1])
+        except (TypeError, ValueError):
+            continue
+        op = c[1]
+        if v == 0.0 and ((op == "Ne" and pos) or (op == "Eq" and not pos) or (op == "Gt" and pos) or (op == "Le" and not pos) or (op == "Lt" and pos)):
+            return True
+    return False
+
+
 def _nonzero_guard(gs, xs):
     """is one of the normalised guards `X != 0` / `X > 0` / `X >= 1` for the integer expression text xs"""
     for g in gs:
@@ -612,13 +657,16 @@ def _nonzero_guard(gs, xs):
 
 
 def r8(ctx, p, cg, K):
-    ctx.rule("C01-R8", "no 0/0 out of nothing: every f64 division in K whose divisor is an integer count converted to f64 is behind a proof that the count is non-zero - a dominating guard in the function, a dominating guard at every call site (up to two levels), or an audited reason (FDIV_T2)")
+    ctx.rule("C01-R8", "division ledger (no inf/NaN out of nothing): every f64 division in K by a non-constant divisor is behind a proof that the divisor is non-zero - for an integer count converted to f64: a dominating guard in the function or at every call site (up to two levels); for a float: a dominating test or a positive function; otherwise an audited reason (FDIV_T2 / FDIV_T2F) whose shape is re-checked")
     callers = {}
     for a, bs in cg.edges.items():
         if a in K:
             for b_ in bs:
                 callers.setdefault(b_, set()).add(a)
     n = 0
+    nf = 0
+    ford = {}
+    usedf = set()
     used = set()
     for path in sorted(K):
         b = p.bodies[path]
@@ -628,6 +676,28 @@ def r8(ctx, p, cg, K):
                 continue
             den = eb.at(bb, i).op(st["rv"]["b"])
             if not (den[0] == "cast" and den[1] in ("f64", "f32") and den[3] not in ("f64", "f32")):
+                # a float divisor that is not a converted count
+                rty = b.local_ty(st["place"]["local"]) if not st["place"]["proj"] else "?"
+                if den[0] == "c" or rty not in ("f64", "f32"):
+                    continue
+                nf += 1
+                loc = cm.loc_of(st["span"])
+                ds = show(den)
+                fkey = "fdiv|%s|%d" % (path, ford.setdefault(path, 0))
+                ford[path] += 1
+                if den[0] == "call" and den[1] in ("f64::exp", "f64::exp2", "f64::cosh"):
+                    ctx.ok("C01-R8", "T1 %s: divisor %s(..) is positive for every argument" % (cm.short(path), den[1]), loc)
+                    continue
+                if _positive_guard_f(paths.guards(b, bb, eb), ds):
+                    ctx.ok("C01-R8", "T1 %s: division by %s is dominated by a test that it is non-zero" % (cm.short(path), ds[:60]), loc)
+                    continue
+                ent = FDIV_T2F.get(fkey)
+                site = ledger.Site("fdiv", path, ds[:300], "", st["span"], bb, st, b)
+                if ent and re.search(ent[0], site.shape()):
+                    usedf.add(fkey)
+                    ctx.ok("C01-R8", "T2 %s  / %s" % (fkey, ds[:80]), loc, ent[1])
+                    continue
+                ctx.fail("C01-R8", path, "float division " + ("(audited shape changed) " if ent else "") + ds[:50], "division by %s with no proof that it is non-zero (no dominating test, not audited): a zero divisor here turns finite values into inf/NaN out of nothing" % ds[:160], loc)
                 continue
             n += 1
             X = den[2]
@@ -670,6 +740,11 @@ def r8(ctx, p, cg, K):
                 continue
             ctx.fail("C01-R8", path, "float division by count " + show(den)[:60], "division by (%s as f64) with no proof that the count is non-zero (no dominating guard here or at the call sites, not audited): an empty frame set would give 0/0 = NaN out of nothing" % xs, loc)
     ctx.anchor("C01-R8", "float divisions by an integer count in K", n, 8)
+    ctx.anchor("C01-R8", "float divisions by a non-constant float in K", nf, 10)
+    ctx.assume("voice-format fact used by C01-R8: the duration variances of a voice are positive")
+    for k in FDIV_T2F:
+        if k not in usedf:
+            ctx.note("FDIV_T2F entry not matched by any site: " + k)
     for k in FDIV_T2:
         if k not in used:
             ctx.note("FDIV_T2 entry not matched by any site: " + k)
